@@ -175,6 +175,15 @@ def main(argv=None):
 
     # 3. the search
     specs = check.plan(args.tier, seed)
+    if args.tier == "thorough":
+        # Bound the wall time of a thorough run (default about 12 minutes on 16 cores): the shards run in rounds of NPROC,
+        # so each shard's time budget is the target divided by the number of rounds. A budget that runs out means
+        # "explored less" (recorded as budget_exhausted in the evidence), never a violation. VF_THOROUGH_WALL_S overrides.
+        target = int(os.environ.get("VF_THOROUGH_WALL_S", "720"))
+        rounds = max(1, -(-len(specs) // NPROC))
+        for spec in specs:
+            if "budget_s" in spec:
+                spec["budget_s"] = min(spec["budget_s"], max(60, target // rounds))
     merged = Acc()
     shard_errors = []
     ctx = multiprocessing.get_context("fork")
